@@ -29,7 +29,7 @@ RULE = ('one foreign .trashinfo per case (absolute / relative Path, percent-esca
         'distinct = (content features, trash-dir kind, home mode)')
 ASSUMPTIONS = ['for a relative Path in the home trash the spec defines no base: only agreement between the commands is required there',
                'trash-rm has no --trash-dir option and is skipped for custom trash directories']
-PROBES = ['undecodable-in-this-locale', 'trash-dir-on-a-volume-missing-from-the-partition-listing', 'twin-entries', 'path-value-over-4k', 'trash-dir-through-cross-volume-symlink', 'several-trash-dir-options', 'four-way-agree', 'relative-path', 'absolute-path', 'home-own-volume', 'custom-trash-dir', 'duplicate-keys', 'crlf', 'escapes',
+PROBES = ['list-files-mode-compared', 'undecodable-in-this-locale', 'trash-dir-on-a-volume-missing-from-the-partition-listing', 'twin-entries', 'path-value-over-4k', 'trash-dir-through-cross-volume-symlink', 'several-trash-dir-options', 'four-way-agree', 'relative-path', 'absolute-path', 'home-own-volume', 'custom-trash-dir', 'duplicate-keys', 'crlf', 'escapes',
           'non-utf8-escape', 'empty-threshold-checked', 'rm-checked', 'restore-checked', 'undated']
 TECHNIQUE = 'deterministic simulation, four-way differential of the readers on rebuilt worlds plus comparison with an independent spec decoder; TRASH_DATE sweeps the purge threshold'
 LEVEL_TEXT = 'seeded exploration of .trashinfo contents x trash-dir kinds; agreement of list / restore / rm / empty on path and date, and with the spec'
@@ -273,6 +273,14 @@ def check(sim, case, st):
         bad('list-no-line', 'trash-list printed no line for the entry; stdout %r stderr %r' % (rl.outs, rl.errs[:300]))
         return res
     d_list, p_list = text[:19], text[20:]
+    if not note.get('twin'):
+        # the other output modes of trash-list print the same location ('<date> <location> -> <payload>' for --files)
+        rf = sim.run(dict({'argv': ['trash-list', '--files'] + td_multi, 'env': env, 'cwd': '/', 'uid': uid}, **LOC))
+        st.sims += 1
+        st.probes['list-files-mode-compared'] += 1
+        lf = [ln for ln in OR.phys_lines(rf.outs) if '/neighbour -> ' not in ln]
+        if rf.exc is None and not any(ln.startswith(text + ' -> ') for ln in lf):
+            bad('list-files-vs-list-path', 'trash-list prints %r, trash-list --files prints %r' % (text, lf[:3]))
     # 2. trash-restore (listing + effect), rebuilt world
     sim.setup(case)
     holder = {}
